@@ -150,6 +150,14 @@ func chainStress(k *mon.Case, readers, writerOps int) {
 		}
 		branch = append(branch, b)
 	}
+	// transactions of the branch blocks: readers look them up while the writer adds and removes the
+	// blocks; once the writer is done, those of removed blocks must be gone and those of kept blocks there
+	var branchTx [][]byte
+	for _, b := range branch {
+		for _, tx := range b.Transactions {
+			branchTx = append(branchTx, tx.ID)
+		}
+	}
 	for i := len(branch) - 1; i >= 0; i-- {
 		if err := n.DeleteTip(false); err != nil {
 			k.Inconclusive("build-delete:" + err.Error())
@@ -170,7 +178,7 @@ func chainStress(k *mon.Case, readers, writerOps int) {
 	}
 	var stop atomic.Bool
 	var paused atomic.Bool
-	var tipCommittedChecks, tipCommittedChecksAboveBase atomic.Int64
+	var tipCommittedChecks, tipCommittedChecksAboveBase, branchTxLookups atomic.Int64
 	var readOps atomic.Int64
 	var wg sync.WaitGroup
 	fail := func(key, what string, w map[string]any) { k.Violation(key, what, w) }
@@ -184,7 +192,18 @@ func chainStress(k *mon.Case, readers, writerOps int) {
 		defer wg.Done()
 		for !stop.Load() {
 			readOps.Add(1)
-			switch rr.Intn(10) {
+			switch rr.Intn(12) {
+			case 10, 11:
+				// look a transaction of the writer's blocks up (it may or may not be on the chain right now)
+				if len(branchTx) > 0 {
+					id := branchTx[rr.Intn(len(branchTx))]
+					if rr.Intn(2) == 0 {
+						_, _ = da.GetTransaction(id)
+					} else {
+						_, _ = da.GetTransactions([][]byte{id})
+					}
+					branchTxLookups.Add(1)
+				}
 			case 8, 9:
 				d0, s0 := popsDone.Load(), popsStarted.Load()
 				if d0 != s0 {
@@ -309,6 +328,27 @@ func chainStress(k *mon.Case, readers, writerOps int) {
 		wg.Add(1)
 		go reader(i+1, rand.New(rand.NewSource(r.Int63())))
 	}
+	// two readers that do nothing but look up the transactions of whatever block is the tip right
+	// now (a wallet polling its latest transaction): they are the ones that meet a removal
+	for i := 0; i < 2; i++ {
+		wg.Add(1)
+		go func() {
+			defer wg.Done()
+			for !stop.Load() {
+				b := n.Chain.LastBlock()
+				if b == nil {
+					continue
+				}
+				for _, tx := range b.Transactions {
+					_, _ = da.GetTransaction(tx.ID)
+					branchTxLookups.Add(1)
+				}
+				if len(b.Transactions) == 0 {
+					time.Sleep(5 * time.Microsecond)
+				}
+			}
+		}()
+	}
 	// the writer plays the consensus goroutine: push / pop blocks of the branch
 	depth := 0
 	for op := 0; op < writerOps; op++ {
@@ -347,6 +387,22 @@ func chainStress(k *mon.Case, readers, writerOps int) {
 	stop.Store(true)
 	wg.Wait()
 	k.Count("reader_ops", int(readOps.Load()))
+	k.Count("lookups_of_transactions_of_blocks_being_added_and_removed", int(branchTxLookups.Load()))
+	// quiescent: what is served by ID must be what is on the chain
+	for i, b := range branch {
+		for _, tx := range b.Transactions {
+			got, err := da.GetTransaction(tx.ID)
+			many, _ := da.GetTransactions([][]byte{tx.ID})
+			served := (err == nil && got != nil) || len(many) > 0
+			k.Count("branch_transactions_checked_after_the_run", 1)
+			if i >= depth && served {
+				k.Violation("removed:transaction-of-a-removed-block-still-served-by-id", "after the writer removed a block (readers looking its transactions up meanwhile) a transaction of it is still served by ID", map[string]any{"block_height": b.Header.Height, "blocks_on_chain": depth})
+			}
+			if i < depth && !served {
+				k.Violation("added:transaction-of-a-block-on-the-chain-not-served-by-id", "a transaction of a block that is on the chain is not served by ID", map[string]any{"block_height": b.Header.Height, "blocks_on_chain": depth})
+			}
+		}
+	}
 	k.Count("writer_ops", writerOps)
 	k.Count("tip_committed_checks_without_removal_in_flight", int(tipCommittedChecks.Load()))
 	k.Count("tip_committed_checks_on_blocks_the_writer_added", int(tipCommittedChecksAboveBase.Load()))
